@@ -142,7 +142,7 @@ class C08(Check):
             for key in mirrors:
                 o, n = key.split(".")
                 f = dict(eff[o])[n]
-                c = rng.choice([0.29, 2.5, 7]) if f == "x" else exprs.rand_value(rng, f)
+                c = rng.choice([0.29, 2.5, 7, 30000, -40000, 21475, 42949, 21474, 1000000, -1.5, 12345.678]) if f == "x" else exprs.rand_value(rng, f)
                 consts[key] = c
                 setattr(objs[o], n, c)
             e.r0 = 2
